@@ -175,13 +175,13 @@ def check(ctx):
     for codec, fn in (('per', 'decode_additions'), ('oer', 'decode')):
         m = model.mod(RELS[codec])
         f = m.classes['Choice'].methods[fn]
-        ps = sem.paths(f) or []
         ok = False
-        for p in ps:
-            for t, n in p.calls('skip_bits'):
-                # the skipped amount is 8 * a length determinant read on this path
-                if 'read_length_determinant(' in t:
-                    ok = True
+        for g_ in class_helpers(m.classes['Choice'], f):          # the entry point and the steps of the object it is split into
+            for p in (sem.paths(g_) or []):
+                for t, n in p.calls('skip_bits'):
+                    # the skipped amount is 8 * a length determinant read on this path
+                    if 'read_length_determinant(' in t:
+                        ok = True
         ctx.instance('C07.R1', '%s.Choice.%s skips the unknown alternative by its open-type length' % (codec, fn), 'ok' if ok else 'VIOLATION', node=f, file=m.rel)
         if not ok:
             ctx.violation('C07.R1', m.rel, f, '%s::Choice.%s' % (m.rel, fn), 'an unknown CHOICE alternative is not skipped by the length determinant read for it', stmt='skip unknown alternative')
